@@ -14,8 +14,9 @@
  * The calling process becomes node 0; nodes are numbered in preorder.  Every
  * process sets its dispositions, forks its children one after the other,
  * appends "<index> <pid>\n" to <readyfile> once all its children exist and
- * then sleeps.  No process of the tree changes its process group, so the
- * whole tree stays in the group of node 0.  Children are auto-reaped
+ * then sleeps; an 'e' node appends "x <index>\n" when it exits on SIGUSR1.
+ * No process of the tree changes its process group, so the whole tree stays
+ * in the group of node 0.  Children are auto-reaped
  * (SIGCHLD ignored).  As a safety net every process arms alarm(lifetime)
  * (default 60 s, SIGALRM default action) so nothing is ever left behind.
  */
@@ -46,6 +47,9 @@ static struct node	nodes[MAXNODES];
 static int		nnodes;
 static const char	*input;
 static int		mycode;
+static int		exitfd = -1;
+static char		exitline[32];
+static size_t		exitlen;
 
 static void
 die(const char *msg)
@@ -108,10 +112,13 @@ parse_node(void)
 	return idx;
 }
 
+/* "exits on its own": say so in the ready file (write(2) is async-signal-safe), then exit */
 static void
 onusr1(int signo)
 {
 	(void)signo;
+	if (exitfd != -1 && write(exitfd, exitline, exitlen) == -1)
+		_exit(97);
 	_exit(mycode);
 }
 
@@ -127,6 +134,13 @@ run_node(int idx, const char *ready, unsigned int lifetime)
 	signal(SIGCHLD, SIG_IGN);
 	signal(SIGALRM, SIG_DFL);
 	mycode = n->code;
+	if (exitfd != -1)
+		close(exitfd);
+	exitfd = -1;
+	if (n->early) {
+		exitfd = open(ready, O_WRONLY | O_APPEND | O_CREAT, 0644);
+		exitlen = (size_t)snprintf(exitline, sizeof(exitline), "x %d\n", idx);
+	}
 	signal(SIGUSR1, n->early ? onusr1 : SIG_IGN);
 	alarm(lifetime);
 
